@@ -10,6 +10,9 @@
     as `C09_stmt`.
   * `C09_partial` proves it for every history whose sources use absolute imports only
     (`absDisk`, `Op.isAbs`: decidable, evaluated by the driver on every history of every run).
+  * "each edit changes the file's modification time" is `freshMtimes`: a write or touch gives the file an
+    mtime that file has not had before in the history — older or newer, no clock is assumed.  With
+    `changed` written as `<` the property fails on a 3-step history: `Witness.C09_lt_false`.
   * The two earlier behaviours fail already on absolute imports: `Witness.C09_pinned_false`,
     `Witness.C09_coarseOnly_false` (repaired in /repo by b5a1370 and 07fdbb8).
 -/
@@ -27,20 +30,20 @@ def C09_stmt : Prop := Transparent .current
     the two answers are compared when neither computation hit it (on acyclic import graphs with `fuel`
     above the chain length none does; the driver reports both flags for every request of every run). -/
 theorem C09_partial : TransparentAbs .current :=
-  fun _ _ _ h0 ha ops hops => run_transparent ops (inv_init h0 ha) hops
+  fun _ _ ha ops hfr hops => run_transparent ops (inv_init ha) hfr hops
 
 /-- the same, spelled out -/
-theorem C09_transparent (fuel : Nat) (D0 : Disk) (c0 : Nat) (h0 : clockOk D0 c0 = true)
-    (ha : absDisk D0 = true) (ops : List Op) (hops : ops.all Op.isAbs = true) :
-    ∀ r, r ∈ run .current fuel (World.init D0 c0) ops →
+theorem C09_transparent (fuel : Nat) (D0 : Disk) (ha : absDisk D0 = true) (ops : List Op)
+    (hfr : freshMtimes (seenOf D0) ops = true) (hops : ops.all Op.isAbs = true) :
+    ∀ r, r ∈ run .current fuel (World.init .current D0) ops →
       r.2.2 ≠ .recursion → fresh fuel r.1 r.2.1 ≠ .recursion → r.2.2 = fresh fuel r.1 r.2.1 :=
-  C09_partial fuel D0 c0 h0 ha ops hops
+  C09_partial fuel D0 ha ops hfr hops
 
 /-- repeating a request without an intervening write gives the same answer, and afterwards every request
     is answered as it would have been after the first one -/
-theorem C09_idempotent (fuel : Nat) (D0 : Disk) (c0 : Nat) (h0 : clockOk D0 c0 = true)
-    (ha : absDisk D0 = true) (ops : List Op) (hops : ops.all Op.isAbs = true) (q : Query) :
-    let w := exec .current fuel (World.init D0 c0) ops
+theorem C09_idempotent (fuel : Nat) (D0 : Disk) (ha : absDisk D0 = true) (ops : List Op)
+    (hfr : freshMtimes (seenOf D0) ops = true) (hops : ops.all Op.isAbs = true) (q : Query) :
+    let w := exec .current fuel (World.init .current D0) ops
     let r1 := request .current fuel w.disk w.st q
     let r2 := request .current fuel w.disk r1.2 q
     (r1.1 ≠ .recursion → r2.1 ≠ .recursion → fresh fuel w.disk q ≠ .recursion → r2.1 = r1.1) ∧
@@ -48,7 +51,7 @@ theorem C09_idempotent (fuel : Nat) (D0 : Disk) (c0 : Nat) (h0 : clockOk D0 c0 =
       (request .current fuel w.disk r2.2 q').1 ≠ .recursion → fresh fuel w.disk q' ≠ .recursion →
       (request .current fuel w.disk r2.2 q').1 = (request .current fuel w.disk r1.2 q').1 := by
   intro w r1 r2
-  obtain ⟨⟨R, hg, hs, _⟩, _, hA⟩ := inv_exec (fuel := fuel) ops (inv_init h0 ha) hops
+  obtain ⟨_, ⟨R, hg, hs, _⟩, _, hA⟩ := inv_exec (fuel := fuel) ops (inv_init ha) hfr hops
   have s1 := request_spec fuel q hg hs hA
   have s2 := request_spec fuel q s1.1 (sameByMtime_refl w.disk) hA
   refine ⟨fun h1 h2 hf => (s2.2 h2 hf).trans (s1.2 h1 hf).symm, fun q' h1 h2 hf => ?_⟩
@@ -59,35 +62,36 @@ theorem C09_idempotent (fuel : Nat) (D0 : Disk) (c0 : Nat) (h0 : clockOk D0 c0 =
 /-- the invariant: after any such history the project's caches are correct for every disk that has the same
     files wherever the project has looked (so an edit elsewhere cannot matter, and an edit there is seen by
     `check_changes`) -/
-theorem C09_invariant (fuel : Nat) (D0 : Disk) (c0 : Nat) (h0 : clockOk D0 c0 = true)
-    (ha : absDisk D0 = true) (ops : List Op) (hops : ops.all Op.isAbs = true) :
-    Inv (exec .current fuel (World.init D0 c0) ops) :=
-  inv_exec ops (inv_init h0 ha) hops
+theorem C09_invariant (fuel : Nat) (D0 : Disk) (ha : absDisk D0 = true) (ops : List Op)
+    (hfr : freshMtimes (seenOf D0) ops = true) (hops : ops.all Op.isAbs = true) :
+    ∃ seen, Inv (exec .current fuel (World.init .current D0) ops) seen :=
+  inv_exec ops (inv_init ha) hfr hops
 
 /-! non-vacuity: a project with a star import through an unchanged importer (a = [1]: `from b import *`,
     `from b import K as M`; b = [2]: `from c import K`, own `L`; c = [3]: own `K`), an edit of the far end
-    `c` between two requests through `a`, then the creation of a module that `a`'s rewritten source had
+    `c` (given an older mtime) between two requests through `a`, then the creation of a module that `a`'s rewritten source had
     already failed to import; the hypotheses hold, no answer is `recursion`, and the answers change with
     the disk -/
 def exDisk : Disk :=
-  [([1], ⟨1, [.star [2], .frm [2] 10 12]⟩), ([2], ⟨2, [.frm [3] 10 10, .bind 11 3]⟩), ([3], ⟨3, [.bind 10 7]⟩)]
+  [([1], ⟨50, [.star [2], .frm [2] 10 12]⟩), ([2], ⟨50, [.frm [3] 10 10, .bind 11 3]⟩), ([3], ⟨50, [.bind 10 7]⟩)]
 
 def exOps : List Op :=
   [.request (.attr [1] none 10), .request (.names [1] none),
-   .write [3] [.bind 10 9], .request (.attr [1] none 10),
-   .write [1] [.star [2], .star [4]], .request (.lint [1] [10, 13]),
-   .write [4] [.bind 13 1], .request (.lint [1] [10, 13]), .request (.loc [1] none 13)]
+   .write [3] 30 [.bind 10 9], .request (.attr [1] none 10),       -- an OLDER mtime than the cached one
+   .write [1] 70 [.star [2], .star [4]], .request (.lint [1] [10, 13]),
+   .write [4] 10 [.bind 13 1], .request (.lint [1] [10, 13]), .request (.loc [1] none 13)]
 
-example : clockOk exDisk 3 = true ∧ absDisk exDisk = true ∧ exOps.all Op.isAbs = true := by decide
+example : freshMtimes (seenOf exDisk) exOps = true ∧ absDisk exDisk = true ∧ exOps.all Op.isAbs = true := by
+  decide
 
-example : (run .current 10 (World.init exDisk 3) exOps).map (·.2.2) =
+example : (run .current 10 (World.init .current exDisk) exOps).map (·.2.2) =
     [.payload 7, .names [10, 11, 12], .payload 9, .undefined [13], .undefined [], .locs [(some [1], 2), (some [4], 1)]] ∧
-    ((run .current 10 (World.init exDisk 3) exOps).all
+    ((run .current 10 (World.init .current exDisk) exOps).all
       (fun r => r.2.2.defined && (fresh 10 r.1 r.2.1).defined)) = true := by decide
 
 -- `C09_idempotent`: its three side conditions hold on that history for a request through the importer
 example :
-    let w := exec .current 10 (World.init exDisk 3) exOps
+    let w := exec .current 10 (World.init .current exDisk) exOps
     let r1 := request .current 10 w.disk w.st (.attr [1] none 10)
     let r2 := request .current 10 w.disk r1.2 (.attr [1] none 10)
     r1.1 = .payload 9 ∧ r2.1 = .payload 9 ∧ fresh 10 w.disk (.attr [1] none 10) = .payload 9 := by decide
